@@ -159,10 +159,10 @@ static std::string cmd_disx(const std::vector<std::string> &args)
   memset(text, 0x55, size);
   int cycles_min = 0, cycles_max = 0;
   capture_take();
-  signal(SIGALRM, isa_alarm);
-  alarm(20);
+  signal(SIGPROF, isa_alarm);
+  nv_cpu_alarm(20);
   int len = f(memory, addr, text, size, cpu->flags, &cycles_min, &cycles_max);
-  alarm(0);
+  nv_cpu_alarm(0);
   capture_take();
   std::string out;
   char buf[32];
@@ -223,7 +223,7 @@ static void disxb_child(DisxbShared *sh, CpuList *cpu, disasm_one_t f, uint32_t 
   char *text2 = (char *)malloc(size);
   Memory *memory = new Memory();
   memory->endian = cpu->default_endian;
-  signal(SIGALRM, isa_alarm);
+  signal(SIGPROF, isa_alarm);
   for (int p = from; p < to; p++)
   {
     sh->cur = p;
@@ -234,9 +234,9 @@ static void disxb_child(DisxbShared *sh, CpuList *cpu, disasm_one_t f, uint32_t 
     for (int i = 0; i < total; i++) { memory->write8(addr + i, (uint8_t)bytes[i]); }
     memset(text1, 0x55, size);
     int c0 = 0, c1 = 0;
-    alarm(20);
+    nv_cpu_alarm(20);
     int len1 = f(memory, addr, text1, size, cpu->flags, &c0, &c1);
-    alarm(0);
+    nv_cpu_alarm(0);
     const char *kind = NULL;
     if (memchr(text1, 0, size) == NULL) { kind = "nonul"; }
     else if (len1 < unit) { kind = "short"; }
@@ -244,9 +244,9 @@ static void disxb_child(DisxbShared *sh, CpuList *cpu, disasm_one_t f, uint32_t 
     {
       for (int i = len1; i < total; i++) { memory->write8(addr + i, (uint8_t)~bytes[i]); }
       memset(text2, 0x55, size);
-      alarm(20);
+      nv_cpu_alarm(20);
       int len2 = f(memory, addr, text2, size, cpu->flags, &c0, &c1);
-      alarm(0);
+      nv_cpu_alarm(0);
       if (len2 != len1 || memchr(text2, 0, size) == NULL || strcmp(text1, text2) != 0) { kind = "nonlocal"; }
     }
     // results of this pattern (only now: a pattern that kills the child is recorded by the parent)
@@ -471,7 +471,7 @@ static void rtxb_child(RtxbShared *sh, CpuList *cpu, disasm_one_t f, uint32_t ad
   Memory *memory = new Memory();
   memory->endian = cpu->default_endian;
   std::set<std::string> seen;
-  signal(SIGALRM, isa_alarm);
+  signal(SIGPROF, isa_alarm);
   for (int p = from; p < to; p++)
   {
     sh->cur = p;
@@ -482,25 +482,25 @@ static void rtxb_child(RtxbShared *sh, CpuList *cpu, disasm_one_t f, uint32_t ad
     for (int i = 0; i < total; i++) { memory->write8(addr + i, (uint8_t)bytes[i]); }
     memset(text1, 0x55, size);
     int c0 = 0, c1 = 0;
-    alarm(5);
+    nv_cpu_alarm(5);
     int len1 = f(memory, addr, text1, size, cpu->flags, &c0, &c1);
     sh->count++;
-    if (len1 <= 0 || len1 > total || memchr(text1, 0, size) == NULL) { alarm(0); continue; }   // C08's business
-    if (text1[0] == 0 || strchr(text1, '?') != NULL) { alarm(0); continue; }
+    if (len1 <= 0 || len1 > total || memchr(text1, 0, size) == NULL) { nv_cpu_alarm(0); continue; }   // C08's business
+    if (text1[0] == 0 || strchr(text1, '?') != NULL) { nv_cpu_alarm(0); continue; }
     std::string key = bytes.substr(0, len1);
-    if (!seen.insert(key).second) { alarm(0); continue; }
-    if (k > 0 && ++shapes[rtxb_shape(text1)] > k) { alarm(0); continue; }
+    if (!seen.insert(key).second) { nv_cpu_alarm(0); continue; }
+    if (k > 0 && ++shapes[rtxb_shape(text1)] > k) { nv_cpu_alarm(0); continue; }
     sh->uniq++;
     std::string b2;
     int rc = isa_asm_text(cpu, addr, rtxb_instr_text(text1), b2);
-    if (rc != 0) { alarm(0); continue; }
+    if (rc != 0) { nv_cpu_alarm(0); continue; }
     sh->acc++;
-    if (b2 == key) { sh->same++; alarm(0); continue; }
+    if (b2 == key) { sh->same++; nv_cpu_alarm(0); continue; }
     std::string after = b2 + bytes.substr(len1);
     for (size_t i = 0; i < after.size(); i++) { memory->write8(addr + i, (uint8_t)after[i]); }
     memset(text2, 0x55, size);
     f(memory, addr, text2, size, cpu->flags, &c0, &c1);
-    alarm(0);
+    nv_cpu_alarm(0);
     // restore what the longer image may have written behind the pattern bytes
     for (size_t i = total; i < after.size(); i++) { memory->write8(addr + i, 0); }
     char pb[16];
@@ -579,10 +579,10 @@ static std::string cmd_walkx(const std::vector<std::string> &args)
   Memory *memory = new Memory();
   isa_load(memory, cpu, start, bytes);
   capture_take();
-  signal(SIGALRM, isa_alarm);
-  alarm(10);
+  signal(SIGPROF, isa_alarm);
+  nv_cpu_alarm(10);
   cpu->disasm_range(memory, cpu->flags, start, end);
-  alarm(0);
+  nv_cpu_alarm(0);
   std::string printed = capture_take();
   delete memory;
   std::string out;
